@@ -9,9 +9,7 @@ import (
 )
 
 func TestVsymReplay(t *testing.T) {
-	if err := vr.ReplayMain(map[string]func(){
-		"VsymC10": VsymC10,
-	}); err != nil {
+	if err := vr.ReplayMain(vsymHarnesses); err != nil {
 		t.Fatal(err)
 	}
 }
